@@ -1,11 +1,12 @@
 import Verif.Proofs.C09HtmlTok
 import Verif.Proofs.HtmlAttr
 import Verif.Model.Html
+import Verif.Spec.C09HtmlShape
 /-!
 # C09 / HTML — start tags written by the model are read back by the standard's tokenizer
 -/
 namespace Verif.Proofs.C09HtmlTag
-open Verif.Spec.C09HtmlTok Verif.Spec.HtmlAttr Verif.Proofs.C09HtmlTok
+open Verif.Spec.C09HtmlTok Verif.Spec.C09HtmlShape Verif.Spec.HtmlAttr Verif.Proofs.C09HtmlTok
 
 /-- the machine `m` put into state `s` (all other components unchanged) -/
 def at_ (m : M) (s : S) : M := { m with s := s }
@@ -60,9 +61,6 @@ theorem run_attrValueQ (m : M) (t : Tag) (n : List Char) (q : Char) (w v : List 
     simp only [runS, runO, step_attrValueQ m t n v q c hc, List.nil_append]
     simpa using this
 
-/-- a byte of an attribute name as the minifier writes it (the lexer lower-cases names; a name holds no white space,
-    `=` or `>`; `/` is excluded by the guard of the theorems) -/
-def nCh (c : Char) : Bool := !isWs c && c != '/' && c != '>' && c != '=' && lower c == c
 
 theorem nCh_spec {c : Char} (h : nCh c = true) : isWs c = false ∧ c ≠ '/' ∧ c ≠ '>' ∧ c ≠ '=' ∧ lower c = c := by
   have : (((isWs c = false ∧ ¬c = '/') ∧ ¬c = '>') ∧ ¬c = '=') ∧ lower c = c := by
@@ -84,8 +82,6 @@ theorem run_attrName (m : M) (t : Tag) (w n : List Char) (h : ∀ c ∈ w, nCh c
     simp only [runS, runO, step_attrName m t n c (h c List.mem_cons_self), List.nil_append]
     simpa using this
 
-/-- a byte of a tag name as the lexer delivers it (lower-cased, no white space, no `>`; `/` excluded by the guard) -/
-def tCh (c : Char) : Bool := !isWs c && c != '/' && c != '>' && lower c == c
 
 theorem tCh_spec {c : Char} (h : tCh c = true) : isWs c = false ∧ c ≠ '/' ∧ c ≠ '>' ∧ lower c = c := by
   have : ((isWs c = false ∧ ¬c = '/') ∧ ¬c = '>') ∧ lower c = c := by
